@@ -13,7 +13,7 @@ struct Snap {
     events: usize,
     failed: usize,
     len: usize,
-    bytes: [u8; 96],
+    bytes: [u8; 120],
     calls: u32,
     method: u32,
     ino: u64,
@@ -34,12 +34,8 @@ struct Snap {
 
 fn snap(ok: bool) -> Snap {
     unsafe {
-        let mut bytes = [0u8; 96];
-        let mut i = 0;
-        while i < 96 {
-            bytes[i] = ghost::DEV.bytes[i];
-            i += 1;
-        }
+        let mut bytes = [0u8; 120];
+        bytes.copy_from_slice(&ghost::DEV.bytes[..120]);
         Snap {
             events: ghost::DEV.events, failed: ghost::DEV.failed, len: ghost::DEV.len, bytes,
             calls: LOG.calls, method: LOG.method, ino: LOG.ino, uid: LOG.uid, gid: LOG.gid, pid: LOG.pid,
@@ -63,15 +59,7 @@ fn mk_script(errmode: u8, errno: i32) -> Script {
 }
 
 pub fn both<const N: usize, const W: usize>(op: u32, fill: fn(&mut [u8]), symbody: bool, lenmode: u8, errmode: u8) {
-    let mut req = [0u8; N];
-    if symbody {
-        let body: [u8; N] = kani::any();
-        let mut i = 40;
-        while i < N {
-            req[i] = body[i];
-            i += 1;
-        }
-    }
+    let mut req: [u8; N] = if symbody { kani::any() } else { [0u8; N] };
     let len: u32 = match lenmode {
         0 => N as u32,
         1 => (1u32 << 20) + 0x1000 + 1,
@@ -114,10 +102,12 @@ pub fn both<const N: usize, const W: usize>(op: u32, fill: fn(&mut [u8]), symbod
     assert!(s1.events == s2.events, "[C20] same number of device writes (a reply, or the same absence of a reply)");
     if s1.events == 1 && s2.events == 1 {
         assert!(s1.len == s2.len, "[C20] same reply length");
+        // compared as 15 64-bit words (replies here are at most 16 + 104 bytes; the tail beyond
+        // the reply length is zero in both recordings)
         let mut i = 0;
-        while i < 96 {
-            if i < s1.len {
-                assert!(s1.bytes[i] == s2.bytes[i], "[C20] same reply bytes");
+        while i < 15 {
+            if i * 8 < s1.len {
+                assert!(get64(&s1.bytes, i * 8) == get64(&s2.bytes, i * 8), "[C20] same reply bytes");
             }
             i += 1;
         }
@@ -130,7 +120,7 @@ pub fn both<const N: usize, const W: usize>(op: u32, fill: fn(&mut [u8]), symbod
 macro_rules! h {
     ($name:ident, $body:expr) => {
         #[kani::proof]
-        #[kani::unwind(100)]
+        #[kani::unwind(17)]
         #[kani::stub(std::rt::thread_cleanup, noop)]
         #[kani::stub(std::fmt::format, empty_string)]
         #[kani::stub(std::ffi::CStr::from_bytes_with_nul, cstr_from_bytes_with_nul)]
